@@ -297,7 +297,7 @@ class C14(Property):
     families = ["write"]
     rule = ("frameworks reached by random update histories (removed arguments and attacks, re-added labels) over valid Aspartix identifiers (incl. Unicode digits), "
             "written by AspartixWriter and read back by AspartixReader; extensions (incl. empty) written by both response writers; status and no-extension lines; "
-            "all bytes compared with the Lean writer model; plus frameworks of 300-4000 arguments with extensions of half to all of them (tens of kilobytes per line, beyond any buffer size); non-trivial = history with a removal")
+            "all bytes compared with the Lean writer model; plus frameworks of 10-120 and of 300-4000 arguments with extensions of half to all of them (tens of kilobytes per line, beyond any buffer size); non-trivial = history with a removal")
     assumptions = ["labels restricted to valid Aspartix identifiers as in the property"]
 
     def cases(self, tier, rng):
@@ -310,9 +310,9 @@ class C14(Property):
             names = names_for(rng, universe) if rng.random() < 0.8 else []
             ext = rng.sample(universe, rng.randint(0, u))
             lines.append("write x ops=%s names=%s ext=%s" % (";".join(ops), ",".join("%d:%s" % (l, hx(x.encode())) for l, x in names), ",".join(map(str, ext)) or "-"))
-        # large frameworks and extensions: thousands of labels, output far beyond any internal buffer size
-        for _ in range(6 if tier == "quick" else 40):
-            u = rng.choice([300, 700, 1500, 2500, 4000])
+        # medium (10-120 labels) and large frameworks and extensions (thousands of labels, output far beyond any internal buffer size)
+        for it in range(46 if tier == "quick" else 640):
+            u = rng.choice([300, 700, 1500, 2500, 4000]) if it % 8 == 0 else rng.randint(10, 120)
             universe = list(range(1, u + 1))
             ops = ["A%d" % l for l in universe]
             for _ in range(rng.randint(0, 200)):
